@@ -122,7 +122,7 @@ let find_valid_order (items : item list) : (string * item list) option =
       | _ -> None
 
 (* ---------- the resolve part of a case ---------- *)
-let check_resolve (id : int) (kind : string) (specs : spec list) (outs : sx list) (must_succeed : bool) =
+let check_resolve ?(note = "") (id : int) (kind : string) (specs : spec list) (outs : sx list) (must_succeed : bool) =
   let (tbl, _) = node_table specs in
   let code s = try z_of_int (Hashtbl.find tbl s) with Not_found -> failwith ("no code for " ^ s) in
   let name_of = Hashtbl.create 64 in
@@ -144,17 +144,25 @@ let check_resolve (id : int) (kind : string) (specs : spec list) (outs : sx list
   let maxp = int_of_nat (max_providers items) in
   (* every property failure names the region of the input space it lies in *)
   let shallow = (if large then false else match region_of items with RSeveral | RRenames -> shallow_secondb items | _ -> false) in
+  (* round 3: the refiner of a doubly provided entity transitively requires two other consumers of the entity (TwoPaths.v) *)
+  let two_feed = (not large) && (not shallow) && (match region_of items with RSeveral | RRenames -> two_feeders_b items | _ -> false) in
   let region = if large then "[scale]" else match region_of items with
     | RUnchained -> "[unchained]"
     | RThree -> "[three-providers]"
     | RNoRequire -> "[chained:no-provider-requires-entity]"
     | RShared -> "[chained:item-provides-two-ambiguous-entities]"
     | (RSeveral | RRenames) when shallow -> "[chained:second-provider-not-farther-from-roots]"
+    | (RSeveral | RRenames) when two_feed -> "[chained:refiner-fed-by-two-consumers]"
     | RSeveral -> "[chained:unclassified:several-ambiguous-entities]"
     | RRenames -> "[chained:unclassified:renames-shape]" in
+  (* round 3: outside the domain only because the generated node names of the items collide ("X", "X", "X_1") *)
+  let collide = (not large) && (not in_domain) && collision_only_b dis items in
+  let region = if collide then "[generated-node-name-equals-item-name]" else region in
+  if collide then count "resolve_node_name_collision";
   if not large then
   count ("region_" ^ (match region_of items with RUnchained -> "unchained" | RThree -> "three" | RNoRequire -> "norequire"
                       | RShared -> "shared" | (RSeveral | RRenames) when shallow -> "shallow_second"
+                      | (RSeveral | RRenames) when two_feed -> "two_feeders"
                       | RSeveral -> "several" | RRenames -> "renames"));
   let propfail id text = propfail id (region ^ " " ^ text) in
   count "resolve_cases";
@@ -173,7 +181,7 @@ let check_resolve (id : int) (kind : string) (specs : spec list) (outs : sx list
   let valid_order = lazy (find_valid_order items) in
   (* (o <outcome> <run>...): the runs differ in the other options of Initialize (DAG dump, DumpPlan, ...) *)
   let real = List.map (fun o -> match args o with
-      | x :: runs -> (x, if List.length runs >= 4 || runs = [] then "" else " {observed in run(s) " ^ String.concat " " (List.map atom runs)
+      | x :: runs -> (x, if List.length runs >= 4 || runs = [] then note else note ^ " {observed in run(s) " ^ String.concat " " (List.map atom runs)
                                                                           ^ "; Initialize options of the runs: 0 none, 1 DAG dump, 2 DumpPlan+PrintActions+hibernation, 3 all}")
       | _ -> failwith "outcome shape") outs in
   if List.length real > 1 then count "resolve_nondeterministic";
@@ -249,7 +257,15 @@ let check_resolve (id : int) (kind : string) (specs : spec list) (outs : sx list
             (* the error is only due when the requirements are cyclic: not when some order of the items is
                accepted by the validator (every requirement provided before, later providers chained behind) *)
             match Lazy.force valid_order with
-            | Some ("suffix", _) -> count "resolve_err_sort_chained_suffix_order_exists"
+            | Some ("suffix", o) ->
+                count "resolve_err_sort_chained_suffix_order_exists";
+                (* round 3: judged in the region two_feeders_b only, by the round-1 validator order_ok (C10_order_checker_sound) *)
+                if two_feed then begin
+                  count "resolve_err_sort_two_feeders";
+                  if order_ok items o then
+                    propfail id ("resolve: 'topological sort failure' although the requirements are not cyclic beyond the refinement loop the chaining block is written for: the validator accepts the order "
+                                 ^ show_ints (List.map (fun it -> int_of_z it.iid) o) ^ " (every requirement provided before; the refiner, which runs after two consumers of its entity, depends on both)")
+                end
             | Some (how, o) ->
                 count "resolve_err_sort_chained_valid_order_exists";
                 propfail id ("resolve: 'topological sort failure' although the requirements are not cyclic (" ^ how ^ "): every item runs after all the other providers of what it requires in the order "
@@ -259,6 +275,16 @@ let check_resolve (id : int) (kind : string) (specs : spec list) (outs : sx list
       | "err", _ -> propfail id ("resolve: unexpected error " ^ so)
       | "panic", _ -> propfail id ("resolve panics instead of returning an order or an error: " ^ so)
       | _ -> failwith ("outcome " ^ so)
+    end
+    else if collide then begin
+      (* not in the domain of the order oracles; "never loses or duplicates an item" is judged nevertheless *)
+      match tag o, args o with
+      | "ok", ids ->
+          let ids = List.map int_of_sx ids in
+          if List.sort compare ids <> List.sort compare (List.map (fun s -> s.sid) specs) then
+            propfail id (Printf.sprintf "resolve: success reported but the resolved order loses or duplicates an item (%d deployed, %d in the order): %s"
+                           n_items (List.length ids) (show_ints ids))
+      | _ -> ()
     end;
     if must_succeed && tag o <> "ok" then
       propfail id ("initialization fails for a subset of the built-in analyses with the optional features enabled: " ^ so)
@@ -353,8 +379,10 @@ let check_seq (id : int) (kind : string) (c : sx) : (spec list * sx list) option
   (match field_opt "nondet" obs with
    | Some _ -> propfail id "the same sequence of API calls leaves different pipelines on equal inputs"
    | None -> ());
-  let steps = args (field "steps" obs) in
+  (* one replay of the call sequence against one recorded run: (steps, the instance table of a run with Initialize calls) *)
+  let replay (steps : sx list) (insts : (int, spec) Hashtbl.t) (run_note : string) : (int * rentry) list option =
   let items : (int * rentry) list ref = ref [] in
+  let removed : (int * rentry) list ref = ref [] in   (* instances taken out by RemoveItem, oldest first *)
   let feats = ref [] in
   let next = ref 0 in
   let fresh () = let i = !next in incr next; i in
@@ -386,49 +414,122 @@ let check_seq (id : int) (kind : string) (c : sx) : (spec list * sx list) option
           let model_old = List.map (fun (i, e) -> (i, int_of_z e.rname)) !items in
           if old_real <> model_old then ()  (* reported as a mismatch below *)
           else if List.sort compare (List.map snd new_real) <> want then
-            propfail id (Printf.sprintf "call #%d (DeployItem): the items added to the pipeline %s are not the closure of the deployed item under the enabled providers of its requirements %s"
-                           k (show_names (List.map snd new_real)) (show_names want))
+            propfail id (Printf.sprintf "call #%d (DeployItem): the items added to the pipeline %s are not the closure of the deployed item under the enabled providers of its requirements %s%s"
+                           k (show_names (List.map snd new_real)) (show_names want) run_note)
         end;
         items := !items @ added_ids;
         feats := p'.p_feats in
+  (* round 3: Initialize in the middle of a sequence.  The item set the call sees is the model's pipeline (in its
+     current order, which matters for same-named items); the outcome and the outcome of the twin (a fresh pipeline
+     with the same instances) are judged like a final Initialize; the pipeline after the call must hold the same
+     instances - also when the call fails - and the model continues from the order the implementation left. *)
+  let init_step k (st : sx) (real : (int * int) list) =
+    count "op_init_calls";
+    let out = List.hd (args st) in
+    if tag out = "skipped" then count "seq_same_instance_twice"
+    else begin
+      let before = !items in
+      let specs = List.map (fun (i, e) ->
+          let sp = try Hashtbl.find insts i with Not_found -> failwith "instance table" in
+          if List.map int_of_z e.rprov <> List.map (fun x -> int_of_z (code x)) sp.sprov
+          || List.map int_of_z e.rreq <> List.map (fun x -> int_of_z (code x)) sp.sreq
+          || int_of_z e.rname <> int_of_z (code sp.sname) then
+            mismatch id ("sequence: name/provides/requires of a pipeline item differ from its specification: " ^ sp.sname);
+          sp) before in
+      let note = Printf.sprintf " {call #%d of the sequence: Initialize%s}" k run_note in
+      check_resolve ~note id kind specs [L [A "o"; out]] false;
+      (match field_opt "twin" st with
+       | Some t ->
+           count "op_init_twins";
+           check_resolve ~note:(Printf.sprintf " {call #%d of the sequence: Initialize of a FRESH pipeline holding the same instances%s}" k run_note)
+             id kind specs [L [A "o"; List.hd (args t)]] false
+       | None -> ());
+      let before_ids = List.map fst before and after_ids = List.map fst real in
+      let show_ids l = show (List.filter_map (fun i -> match List.assoc_opt i before with Some e -> Some (i, e) | None -> None) l) in
+      if tag out <> "ok" then begin
+        count "op_init_failed";
+        if List.sort compare before_ids <> List.sort compare after_ids then
+          propfail id (Printf.sprintf "[failed-initialize] call #%d: Initialize returned %s and the pipeline lost or duplicated items: before the call %s, after it %s (%d -> %d items)%s"
+                         k (string_of_sx out) (show before) (show_ids after_ids) (List.length before_ids) (List.length after_ids) run_note)
+        else begin
+          (* fine: a failing resolve leaves the items sorted by name (stable for at most 12 items) *)
+          let names = List.map (fun (i, _) -> (Hashtbl.find insts i).sname) before in
+          let distinct_names = List.length (List.sort_uniq compare names) = List.length names in
+          if List.length before <= 12 || distinct_names then begin
+            let sorted = List.stable_sort (fun (i, _) (j, _) -> compare (Hashtbl.find insts i).sname (Hashtbl.find insts j).sname) before in
+            if List.map fst sorted <> after_ids then
+              mismatch id (Printf.sprintf "call #%d (failing Initialize): pipeline of the implementation %s, of the model %s%s" k (show_ids after_ids) (show sorted) run_note)
+          end
+        end
+      end;
+      (* continue from what the implementation left (ids that were never in the pipeline cannot be continued) *)
+      if List.for_all (fun i -> List.mem_assoc i before) after_ids then
+        items := List.map (fun i -> (i, List.assoc i before)) after_ids
+      else begin
+        mismatch id (Printf.sprintf "call #%d (Initialize): the pipeline holds an instance that was not in it before the call%s" k run_note);
+        ok := false
+      end
+    end in
   List.iteri (fun k o ->
     if !ok && k < List.length steps then begin
       let st = List.nth steps k in
-      if tag st = "panic" then (propfail id (Printf.sprintf "call #%d panics" k); ok := false)
+      if tag st = "panic" then (propfail id (Printf.sprintf "call #%d panics%s" k run_note); ok := false)
       else begin
         let rec pairs = function
           | i :: n :: r -> (int_of_sx i, int_of_z (code (atom n))) :: pairs r
           | _ -> [] in
-        let real = pairs (args st) in
+        let real = pairs (args (if tag st = "i" then field "s" st else st)) in
         count ("op_" ^ tag o);
         (match tag o, args o with
          | "feat", [A f] -> feats := (set_feature { p_items = []; p_feats = !feats } (code f)).p_feats
          | "add", [d] -> items := !items @ [(fresh (), root_of d)]
          | "deploy", [d] -> deploy_step k None (root_of d) real
-         | "rm", [A n; A w] -> (match find n w with Some (i, _) -> items := remove_first i !items | None -> ())
+         | "rm", [A n; A w] -> (match find n w with Some (i, e) -> items := remove_first i !items; removed := !removed @ [(i, e)] | None -> ())
          | "readd", [A n; A w] -> (match find n w with Some x -> items := !items @ [x] | None -> ())
          | "redeploy", [A n; A w] -> (match find n w with Some (i, e) -> deploy_step k (Some i) e real | None -> ())
+         | "restore", [A n; A w] ->
+             let l = List.filter (fun (_, e) -> e.rname = code n) !removed in
+             (match (if w = "first" then l else List.rev l) with
+              | (i, e) :: _ -> removed := List.filter (fun (j, _) -> j <> i) !removed; items := !items @ [(i, e)]
+              | [] -> ())
+         | "init", _ -> init_step k st real
          | _ -> failwith ("op shape " ^ string_of_sx o));
         let model = List.map (fun (i, e) -> (i, int_of_z e.rname)) !items in
         if !ok && model <> real then begin
-          mismatch id (Printf.sprintf "call #%d %s (%s): pipeline of the implementation %s, of the model %s" k (tag o) kind
-                         (string_of_sx st) (show !items));
+          mismatch id (Printf.sprintf "call #%d %s (%s): pipeline of the implementation %s, of the model %s%s" k (tag o) kind
+                         (string_of_sx (if tag st = "i" then field "s" st else st)) (show !items) run_note);
           ok := false
         end
       end
     end) (args (field "ops" c));
-  let specs = List.map spec_of_sx (args (field "items" obs)) in
-  let outs = args (field "outs" obs) in
-  if not !ok then None
-  else if List.exists (fun o -> match args o with x :: _ -> tag x = "skipped" | _ -> false) outs then (count "seq_same_instance_twice"; None)
-  else begin
-    List.iter2 (fun (_, e) s ->
-      if List.map int_of_z e.rprov <> List.map (fun x -> int_of_z (code x)) s.sprov
-      || List.map int_of_z e.rreq <> List.map (fun x -> int_of_z (code x)) s.sreq then
-        mismatch id ("sequence: provides/requires of a pipeline item differ from its specification: " ^ s.sname))
-      !items specs;
-    Some (specs, outs)
-  end
+  if !ok then Some !items else None in
+  match field_opt "steps" obs with
+  | Some steps ->
+      (* rounds 1-2: no Initialize inside the sequence, one at the end *)
+      let specs = List.map spec_of_sx (args (field "items" obs)) in
+      let outs = args (field "outs" obs) in
+      (match replay (args steps) (Hashtbl.create 1) "" with
+       | None -> None
+       | Some items ->
+           if List.exists (fun o -> match args o with x :: _ -> tag x = "skipped" | _ -> false) outs then (count "seq_same_instance_twice"; None)
+           else begin
+             List.iter2 (fun (_, e) s ->
+               if List.map int_of_z e.rprov <> List.map (fun x -> int_of_z (code x)) s.sprov
+               || List.map int_of_z e.rreq <> List.map (fun x -> int_of_z (code x)) s.sreq then
+                 mismatch id ("sequence: provides/requires of a pipeline item differ from its specification: " ^ s.sname))
+               items specs;
+             Some (specs, outs)
+           end)
+  | None ->
+      (* round 3: one (run (rs <run>...) (insts ...) (steps ...)) per distinct behaviour of the 4 runs *)
+      List.iter (fun r ->
+        count "seqinit_runs";
+        let insts = Hashtbl.create 32 in
+        List.iter (fun x -> let sp = spec_of_sx x in Hashtbl.replace insts sp.sid sp) (args (field "insts" r));
+        let rs = List.map atom (args (field "rs" r)) in
+        let run_note = if List.length rs >= 4 then "" else " {run(s) " ^ String.concat " " rs ^ "}" in
+        ignore (replay (args (field "steps" r)) insts run_note)) (args obs);
+      None
 
 let () =
   iter_cases (fun id c ->
